@@ -62,4 +62,93 @@ theorem c09_t_getShard (R S : Nat) (st : Status) (flat : List Bool) (s : Nat) (h
     simp only [this, if_true]
     exact hf.2 s r hs hr
 
+/-- the window `getShard(s)` returns, as a list -/
+def window (R : Nat) (flat : List Bool) (s : Nat) : List Bool := (flat.take (s * R + R)).drop (s * R)
+
+theorem c09_t_getShard_eq (R S : Nat) (flat : List Bool) (s : Nat) (hlen : flat.length = S * R) (hs : s < S)
+    (hb : S * R < 9223372036854775808) :
+    T.storesWriteStatus_getShard R flat s = some (window R flat s) := by
+  have hle : s * R + R ≤ S * R := by
+    have : (s + 1) * R ≤ S * R := Nat.mul_le_mul_right R (by omega)
+    rw [Nat.add_mul, Nat.one_mul] at this; exact this
+  unfold T.storesWriteStatus_getShard window
+  have hm : (s : Int) * (R : Int) = ((s * R : Nat) : Int) := by push_cast; rfl
+  have hw : wrapI64 ((s : Int) * (R : Int)) = ((s * R : Nat) : Int) := by
+    rw [hm]; exact wrapI64_natCast (by omega)
+  have hl : len flat = ((S * R : Nat) : Int) := by unfold len; rw [hlen]
+  simp only [hw]
+  generalize s * R = k at *
+  have hw2 : wrapI64 ((k : Int) + (R : Int)) = ((k + R : Nat) : Int) := by unfold wrapI64; omega
+  have g : ¬ ¬ ((0 : Int) ≤ (k : Int) ∧ (k : Int) ≤ ((k + R : Nat) : Int) ∧ ((k + R : Nat) : Int) ≤ len flat) := by
+    rw [hl]; omega
+  simp only [hw2, if_neg g, slice, Int.toNat_natCast]
+
+/-- `shard.Bulk`, per replica: a replica whose flag is set is skipped (`replicaLoop`: `if row r then` no call) -/
+theorem c09_t_replicaSkip (row : List Bool) (r : Nat) (hr : r < row.length) :
+    T.replicaSkip row r = some row[r] := by
+  unfold T.replicaSkip
+  have hpos : len row > 0 := by unfold len; omega
+  rw [if_pos hpos, idx_natCast, List.getElem?_eq_getElem hr]
+  cases row[r] <;> rfl
+
+/-- ... and its flag is set only when the call returned no error (`replicaLoop`: `outs r = true` marks, a failed call
+leaves the row as it was); the error itself goes to `hostErrors[r]` -/
+theorem c09_t_replicaMark {E : Type} (err : E) (isNil : E → Bool) (errs : List E) (row : List Bool) (r : Nat)
+    (hr : r < row.length) (he : r < errs.length) :
+    T.replicaMark err isNil errs r row false = some (if isNil err then row.set r true else row) := by
+  unfold T.replicaMark
+  have g1 : ¬ ¬ ((0 : Int) ≤ (r : Int) ∧ (r : Int) < len errs) := by unfold len; omega
+  have g2 : ¬ ¬ ((0 : Int) ≤ (r : Int) ∧ (r : Int) < len row) := by unfold len; omega
+  cases h : isNil err
+  · simp only [if_true, if_neg g1, Bool.false_eq_true, if_false]
+  · simp only [Bool.true_eq_false, if_false, if_true, if_neg g2, set_natCast]
+
+/-- the first call in visiting order that returned no error, else the last error (`err0` when nothing was visited) -/
+def firstOk {E : Type} (isNil : E → Bool) : List E → E → E
+  | [], e => e
+  | x :: xs, _ => if isNil x then x else firstOk isNil xs x
+
+/-- the loop of `sendBulkToStores`: shards are visited in the shuffled order `order`, each `shard.Bulk` gets the
+shard's window of the status slice, and the loop stops at the first call without error - `Replica.sendBulk`'s
+`if ok then .. else sendBulk rest` -/
+theorem c09_t_visitLoop_loop {E Sh C : Type} (shards : List Sh) (order : List Nat) (R : Nat) (flat : List Bool) (ctx : C)
+    (bulk : Sh → C → List Bool → E) (isNil ocb : E → Bool) (hord : ∀ s, s ∈ order → s < shards.length)
+    (hlen : order.length = shards.length) (hflat : flat.length = shards.length * R)
+    (hb : shards.length * R < 9223372036854775808) (hn : shards.length < 4611686018427387904) :
+    ∀ (fuel n : Nat) (err : E), n + fuel = shards.length →
+      T.visitLoop_loop0 shards (order.map Int.ofNat) R flat ctx bulk isNil ocb fuel err n
+        = some (firstOk isNil ((order.drop n).filterMap fun s => (shards[s]?).map fun sh => bulk sh ctx (window R flat s)) err) := by
+  intro fuel
+  induction fuel with
+  | zero =>
+    intro n err hn'
+    have : order.drop n = [] := List.drop_of_length_le (by omega)
+    simp [T.visitLoop_loop0, this, firstOk]
+  | succ fuel ih =>
+    intro n err hn'
+    have hlt : n < order.length := by omega
+    have hlt' : (n : Int) < len shards := by unfold len; omega
+    have hd : order.drop n = order[n] :: order.drop (n + 1) := List.drop_eq_getElem_cons hlt
+    have hs := hord _ (List.getElem_mem hlt)
+    have hw : wrapI64 ((n : Int) + 1) = ((n + 1 : Nat) : Int) := by unfold wrapI64; omega
+    have hidx : idx (order.map Int.ofNat) (n : Int) = some ((order[n] : Nat) : Int) := by
+      rw [idx_natCast]; simp [hlt]
+    rw [T.visitLoop_loop0, hd]
+    simp only [if_pos hlt', hidx, Option.bind_some, idx_natCast, List.getElem?_eq_getElem hs,
+      c09_t_getShard_eq R shards.length flat order[n] hflat hs hb, List.filterMap_cons, Option.map_some, firstOk, hw]
+    cases hnil : isNil (bulk shards[order[n]] ctx (window R flat order[n]))
+    · simp only [Bool.false_eq_true, if_false]
+      exact ih (n + 1) _ (by omega)
+    · simp only [if_true]
+
+theorem c09_t_visitLoop {E Sh C : Type} (err0 : E) (shards : List Sh) (order : List Nat) (R : Nat) (flat : List Bool) (ctx : C)
+    (bulk : Sh → C → List Bool → E) (isNil ocb : E → Bool) (hord : ∀ s, s ∈ order → s < shards.length)
+    (hlen : order.length = shards.length) (hflat : flat.length = shards.length * R)
+    (hb : shards.length * R < 9223372036854775808) (hn : shards.length < 4611686018427387904) :
+    T.visitLoop err0 shards (order.map Int.ofNat) R flat ctx bulk isNil ocb
+      = some (firstOk isNil (order.filterMap fun s => (shards[s]?).map fun sh => bulk sh ctx (window R flat s)) err0) := by
+  unfold T.visitLoop
+  have := c09_t_visitLoop_loop shards order R flat ctx bulk isNil ocb hord hlen hflat hb hn shards.length 0 err0 (by omega)
+  simpa [len] using this
+
 end SV.Props.C09
